@@ -36,6 +36,8 @@ def check(ctx):
     ctx.rule("R20.2", "z-only kernel == component 2 of the vector kernel", 1)
     ctx.rule("R20.3", "every output is a sum of terms homogeneous of degree one in the currents (superposition)", 2)
     ctx.rule("R20.4", "SI conversion factors in biot_savart_2d; convert_field: B<->B plain, H->B times mu0, B->H divided by mu0", 6)
+    ctx.rule("R20.9", "every part of a decomposed field / potential is converted to the requested units on every path "
+                      "(with and without pint quantities requested)", 3)
     ctx.rule("R20.5", "totals are exactly supercurrent + normal (+ applied) parts", 2)
     ctx.rule("R20.6", "loop potential == mu0 I a / (pi m sqrt(r^2+a^2+2 a r sin)) [(2-m)K(m) - 2E(m)], azimuthal direction", 2)
     ctx.rule("R20.8", "post-processing functions never modify their array arguments in place (or views of them)", 20)
@@ -43,6 +45,7 @@ def check(ctx):
     kernels(ctx)
     units(ctx)
     decomposition(ctx)
+    parts_converted(ctx)
     loop_potential(ctx)
     distances(ctx)
     input_purity(ctx)
@@ -221,6 +224,70 @@ def decomposition(ctx):
     ctx.ob("R20.5", "vector_potential_at_position: sum == applied + supercurrent + normal parts", ok,
            detail={"keys": keys, "parts": names, "returns": rets}, where=f.fq, construct="potential decomposition",
            loc=loc(f, f.node), message=f"keys {keys}, parts {names}", consequence="the total potential omits a part")
+
+
+def parts_converted(ctx):
+    """R20.9: each value stored in the returned table / appended to the returned list passes through `.to(units)` or
+    `convert_field(., units, ...)` on every path from the function entry, and is only stripped of its units afterwards."""
+    from ..cfg import build_cfg, parent_map
+    from ..dataflow import stmt_of
+    repo = ctx.repo
+    for qual in ("Solution.vector_potential_at_position", "Solution.field_at_position"):
+        f = repo.func(SOLN, qual)
+        fn = f.node
+        if "units" not in [a.arg for a in fn.args.args + fn.args.kwonlyargs]:
+            raise AnalysisError(f"{qual} no longer takes `units`")
+        cfg = build_cfg(fn)
+        pm = parent_map(fn)
+        sinks = []        # (stmt, value Name)
+        for n in own_nodes(fn):
+            if isinstance(n, ast.Assign) and isinstance(n.targets[0], ast.Subscript) and isinstance(n.value, ast.Name) \
+                    and isinstance(n.targets[0].value, ast.Name):
+                sinks.append((n, n.value.id, f"{norm(n.targets[0])}"))
+            if isinstance(n, ast.Call) and isinstance(n.func, ast.Attribute) and n.func.attr == "append" and len(n.args) == 1 \
+                    and isinstance(n.args[0], ast.Name) and isinstance(n.func.value, ast.Name):
+                sinks.append((stmt_of(n, pm), n.args[0].id, norm(n)))
+        # keep the sinks that feed the returned container
+        returned = {norm(r.value) for r in own_nodes(fn) if isinstance(r, ast.Return) and isinstance(r.value, ast.Name)}
+        sinks = [(st, v, txt) for st, v, txt in sinks if any(txt.startswith(r + "[") or txt.startswith(r + ".append") for r in returned)]
+        if not sinks:
+            raise AnalysisError(f"{qual}: no part is stored into the returned container")
+
+        def converts(value) -> bool:
+            for c in ast.walk(value):
+                if isinstance(c, ast.Call):
+                    if isinstance(c.func, ast.Attribute) and c.func.attr in ("to", "ito") and c.args and norm(c.args[0]) == "units":
+                        return True
+                    if norm(c.func).split(".")[-1] == "convert_field" and len(c.args) >= 2 and norm(c.args[1]) == "units":
+                        return True
+            return False
+        for st, v, txt in sinks:
+            conv, other = set(), []
+            for n in cfg.nodes:
+                if n.kind == "stmt" and isinstance(n.ast, ast.Assign) and any(isinstance(t, ast.Name) and t.id == v for t in n.ast.targets):
+                    if converts(n.ast.value):
+                        conv.add(n.id)
+                    elif norm(n.ast.value) != f"{v}.magnitude":
+                        other.append(n.id)
+            sink = cfg.node_of(st).id
+            wit = cfg.path(cfg.entry, sink, skip=conv, skip_edges=("exc",))
+            # a non-converting redefinition between the conversion and the sink undoes it
+            undone = None
+            for c_ in conv:
+                for o in other:
+                    p1 = cfg.path(c_, o, skip=conv - {c_}, skip_edges=("exc",))
+                    p2 = cfg.path(o, sink, skip=conv, skip_edges=("exc",)) if p1 is not None else None
+                    if p1 is not None and p2 is not None:
+                        undone = cfg.describe_path(p2)[-4:]
+            ok = wit is None and bool(conv) and undone is None
+            ctx.ob("R20.9", f"{qual}: `{txt}` holds a value converted to `units` on every path", ok,
+                   detail={"conversions": len(conv), "path_without_conversion": cfg.describe_path(wit)[-8:] if wit else None, "undone": undone},
+                   where=f.fq, construct=f"unit conversion of the part stored by `{txt}`", loc=loc(f, st),
+                   message=f"`{txt}` can be reached without converting `{v}` to the requested units "
+                           f"({'no conversion at all' if not conv else 'a path around `.to(units)` / convert_field exists'})",
+                   consequence="for some flag combination (e.g. with_units=False and non-default units) one part is returned in the default "
+                               "units while the others are converted: the total is not the sum of the correctly converted parts",
+                   witness={"path": cfg.describe_path(wit)[-8:] if wit else undone})
 
 
 def loop_potential(ctx):
